@@ -219,3 +219,53 @@ Example C13_three_orders :
   ok (run [0;0;0;0;1;1;1;1;1;0]%nat) = true /\                     (* callback between add/check and suspend *)
   ok (run [0;0;0;0;0;1;1;1;1;1]%nat) = true.                       (* joiner suspended first *)
 Proof. vm_compute. repeat split. Qed.
+
+(* ================= the handle's internal spinlock (Model/JoinLock.v, Proofs/JoinLockProofs.v) =================
+   Model/Join.v plus, per pika::thread object (o,k), the owner of its mtx_, and third parties (any thread that is
+   not a task of the base model: a pika task or an OS thread) calling joinable / get_id / native_handle /
+   interruption_requested / swap / move (HObs), detach (HDetach), interrupt (HIntr) on handles they do not own.
+   Whether join() releases mtx_ (`unlock_guard ul(l)`) between the accepted registration of its exit callback and
+   its wait loop is read from thread.cpp on every run (Gen.GenJoin.join_unlocks_before_wait); the release is a
+   step of its own.  Every task count, program, third-party call list and schedule. *)
+From Pika Require Import Model.JoinLock Gen.GenJoin Proofs.JoinLockProofs.
+
+(* in every reachable state: the owner of a handle lock is the handle's own task, it is not suspended, no
+   unlock_guard re-lock is pending, and it stands inside join() between the entry and the release before the wait
+   (interruption point / registration / the release itself) or in the final detach_locked();
+   hence no task that is suspended or about to suspend (PJoinSusp) or just woken (PJoinWake) owns a handle lock *)
+Theorem C13_no_suspend_holding_handle_lock : forall tgt h0 n progs hprogs sched,
+  let c := ljrun join_unlocks_before_wait tgt h0 n progs hprogs sched in
+  (forall o k t, hlk (fst c) o k = Some t ->
+     o = t /\ blocked (ag (bg (fst c)) t) = false /\ relock (snd c t) = None /\ mayhold (pc (bl (snd c t))) k = true) /\
+  (forall t, suspending (fst c) (snd c t) t -> forall o k, hlk (fst c) o k <> Some t).
+Proof. exact no_suspend_holding_handle_lock. Qed.
+Print Assumptions C13_no_suspend_holding_handle_lock.
+
+(* a reachable state in which nothing can move: no handle lock is owned, nobody waits (spins) for one, and every
+   third party has made all its calls — joinable(), get_id(), ..., interrupt() called during a join return *)
+Theorem C13_handle_calls_return_during_join : forall tgt h0 n progs hprogs sched,
+  let c := ljrun join_unlocks_before_wait tgt h0 n progs hprogs sched in
+  lstuck join_unlocks_before_wait tgt c ->
+  (forall o k, hlk (fst c) o k = None) /\
+  (forall t, waits_for (fst c) t (snd c t) = None) /\
+  (forall t, pc (bl (snd c t)) = PIdle -> calls_returned (snd c t) = true).
+Proof. exact handle_calls_return_during_join. Qed.
+Print Assumptions C13_handle_calls_return_during_join.
+
+(* why the release matters (the shape join_unlocks_before_wait = false): J suspended owning its handle's lock, the
+   target blocked for ever, the third party spinning in its first call, the interrupt never issued; nothing moves *)
+Example C13_lock_held_across_suspend_blocks_handle_calls :
+  let c := ljrun false w_tgt (fun _ _ => true) 2 w_progs w_hprogs w_sched_held in
+  hlk (fst c) 0 0 = Some 0 /\ blocked (ag (bg (fst c)) 0) = true /\ blocked (ag (bg (fst c)) 1) = true /\
+  waits_for (fst c) 2 (snd c 2) = Some (0, 0) /\ hops (snd c 2) = [HObs 0 0; HIntr 0 0] /\
+  lstuck false w_tgt c.
+Proof. exact witness_lock_held_across_suspend. Qed.
+
+(* non-vacuity, the source's shape: the observer returns, the interrupt ends the blocked target at the interruption
+   point after its suspension, the join returns *)
+Example C13_handle_calls_during_join_example :
+  let c := ljrun true w_tgt (fun _ _ => true) 2 w_progs w_hprogs w_sched_ok in
+  calls_returned (snd c 2) = true /\ pc (bl (snd c 0)) = PDone /\ pc (bl (snd c 1)) = PDone /\
+  log (bg (fst c)) = [EBodyDone 0; EJoinRet 0 0; EBodyDone 1; EIntrAt 1 IPSuspendPost true; EIntrReq 2 1] /\
+  hlog (fst c) = [HObserved 2 0 0 true] /\ hlk (fst c) 0 0 = None.
+Proof. exact witness_unlocked_returns. Qed.
